@@ -41,6 +41,10 @@ def verify_function(rel, qual, contract, hooks=None, registry=None, module_env=N
     except E.Unsupported as e:
         rep.undecided = 'outside the verified subset: %s' % e
         rep.notes = eng.notes
+        # obligations generated before the unsupported construct was met are still meaningful
+        for ob in eng.obligations:
+            S.discharge(ob, timeout_ms=timeout_ms)
+        rep.obligations = list(eng.obligations)
         return rep
     except (KeyError, AttributeError, TypeError, z3.Z3Exception, IndexError, ValueError) as e:
         # a contract that no longer fits the code (renamed local, changed arity) is "undecided", not a violation
